@@ -45,6 +45,11 @@ var twinProgs = []string{
 	"(defun lp (n) (if (= n 0) 'done (funcall (lambda (m) (lp m)) (- n 1)))) (lp n0)",
 	"(defun ap (n) (if (= n 0) 'done (apply ap (list (- n 1))))) (ap n0)",
 	"(defun tw (n) (or (= n 0) (progn (tw (- n 1)) (tw (- n 1))))) (tw n0)",
+	// a loop of ANOTHER package that names itself by an unqualified symbol, entered through funcall / apply
+	"(in-package 'bpk) (export 'spin) (defun spin (n) (if (<= n 0) 'done (funcall 'spin (- n 1)))) (in-package 'user) (funcall 'bpk:spin n0)",
+	"(in-package 'bpk) (export 'spin) (defun spin (n) (if (<= n 0) 'done (apply 'spin (list (- n 1))))) (in-package 'user) (apply 'bpk:spin (list n0))",
+	"(in-package 'bpk) (export 'spin) (defun spin (n) (if (<= n 0) 'done (funcall 'spin (- n 1)))) (in-package 'user) (defun enter (n) (funcall 'bpk:spin n)) (enter n0)",
+	"(in-package 'bpk) (export 'spin) (set 'tag 'in-bpk) (defun spin (n) (if (<= n 0) tag (funcall 'spin (- n 1)))) (in-package 'user) (set 'tag 'in-user) (list (funcall 'bpk:spin n0) tag)",
 }
 
 // The value, effects and error condition are the same whether tail calls are eliminated or not.
